@@ -1,6 +1,7 @@
 package main
 
 import (
+	"encoding/json"
 	"fmt"
 	"os"
 	"os/exec"
@@ -22,6 +23,18 @@ import (
 
 var c20ctl = []string{"cpu", "memory", "pids"} // controllers used on the real v1 hierarchy
 
+// c20v2: this process runs inside a private mount namespace in which the kernel's cgroup2 hierarchy is bind-mounted on
+// /sys/fs/cgroup, so that the package detects (at init) and uses the v2 implementation
+var c20v2 = os.Getenv("C20_V2") == "1"
+
+// hierarchy roots ("" = the single v2 hierarchy)
+func c20roots() []string {
+	if c20v2 {
+		return []string{""}
+	}
+	return []string{"cpu", "cpuacct", "cpuset", "memory", "pids"}
+}
+
 func c20prefix() string { return fmt.Sprintf("verif-%d", os.Getpid()) }
 
 func c20dirs(rel string) []string {
@@ -36,7 +49,7 @@ func dirExists(p string) bool { fi, err := os.Stat(p); return err == nil && fi.I
 
 // c20cleanup removes every group below this process's prefix (children first).
 func c20cleanup() {
-	for _, ctl := range []string{"cpu", "cpuacct", "cpuset", "memory", "pids"} {
+	for _, ctl := range c20roots() {
 		root := filepath.Join("/sys/fs/cgroup", ctl, c20prefix())
 		var dirs []string
 		filepath.Walk(root, func(p string, fi os.FileInfo, err error) error {
@@ -65,6 +78,16 @@ type c20handle struct {
 	dead    bool
 }
 
+// c20memberDir returns the directory (in the hierarchy that dir belongs to) of the group pid is a member of.
+func c20memberDir(pid int, dir string) string {
+	m := c20membership(pid)
+	if c20v2 {
+		return filepath.Join("/sys/fs/cgroup", m[""])
+	}
+	f := strings.SplitN(strings.TrimPrefix(dir, "/sys/fs/cgroup/"), "/", 2)
+	return filepath.Join("/sys/fs/cgroup", f[0], m[f[0]])
+}
+
 func c20membership(pid int) map[string]string {
 	out := map[string]string{}
 	b, _ := os.ReadFile(fmt.Sprintf("/proc/%d/cgroup", pid))
@@ -88,7 +111,7 @@ func init() {
 		spec := &mc.Spec{
 			Level: "exploration",
 			Rule: "family 0 (real cgroup v1 hierarchy): every operation sequence of ≤ maxOps over {New(prefix) with controller sets {memory} / {cpu,memory,pids}, h.New(child), h.Random(pattern) with the random source scripted over a 2-value domain, h.Nest(name) on a group that holds a helper process, OpenExisting, AddProc(helper), SetMemoryLimit, SetProcLimit, SetCPUBandwidth, Destroy(any live handle)}; state = directories below the test prefix, the helper's membership, the limit files; reference tree with a created-by flag per handle. " +
-				"family 1 (schedules): two creators working on the same name (New+New, Random+Random with the same scripted name, New+Destroy of the other's group), all interleavings of their instrumented file-system calls. family 2 (statistics files): every reading function on fake group directories whose files hold {0, 1, 2^32, 2^53, extra fields before / after, no trailing newline, missing file}, v1 and v2 layouts. " +
+				"family 3 (real cgroup v2 hierarchy, bind-mounted on /sys/fs/cgroup in a private mount namespace of a helper process; no controllers available): the same sequences one operation shorter, without limit operations. family 1 (schedules): two creators working on the same name (New+New, Random+Random with the same scripted name, New+Destroy of the other's group), all interleavings of their instrumented file-system calls. family 2 (statistics files): every reading function on fake group directories whose files hold {0, 1, 2^32, 2^53, extra fields before / after, no trailing newline, missing file}, v1 and v2 layouts. " +
 				"non-trivial: the sequence creates at least two handles or destroys one; distinct = (sequence or schedule, resulting tree)",
 			Bound:       map[string]any{"max_ops": maxOps, "v2_scope": "cgroup v2 controller files (memory.max, pids.max, memory.peak, pids.peak) cannot be exercised against this kernel (controllers are bound to v1); the v2 reading and writing functions are checked on fake directories only"},
 			Assumptions: []string{"the overlay instrumentation only inserts calls before file-system operations and a seam in nextRandom"},
@@ -96,10 +119,20 @@ func init() {
 			Workers:     4,
 			Horizon:     60 * time.Second,
 		}
+		c20tier = tier
 		spec.Init = func() error { devnull(); c20cleanup(); return nil }
 		spec.Fini = func() { c20cleanup(); cleanupTmp() }
 		spec.Body = func(x *mc.X) {
-			switch x.Choose(3, "family") {
+			v2ops := maxOps - 1 // each v2 sequence costs a helper process in its own mount namespace
+			if c20v2 {
+				// replayed inside the v2 mount namespace: the family choice is still consumed
+				x.Choose(4, "family")
+				c20sequence(x, v2ops)
+				return
+			}
+			switch x.Choose(4, "family") {
+			case 3:
+				c20onV2(x, v2ops)
 			case 0:
 				c20sequence(x, maxOps)
 			case 1:
@@ -112,20 +145,20 @@ func init() {
 	}
 }
 
-func c20sequence(x *mc.X, maxOps int) {
-	opNames := []string{"New(prefix,{memory})", "New(prefix,{cpu,memory,pids})", "h.New(child)", "h.Random(r*)", "h.Nest(n)", "OpenExisting(prefix)", "AddProc(helper)", "SetMemoryLimit", "SetProcLimit", "SetCPUBandwidth", "Destroy"}
+type c20step struct{ op, h, rnd int }
+
+var c20opNames = []string{"New(prefix,{memory})", "New(prefix,{cpu,memory,pids})", "h.New(child)", "h.Random(r*)", "h.Nest(n)", "OpenExisting(prefix)", "AddProc(helper)", "SetMemoryLimit", "SetProcLimit", "SetCPUBandwidth", "Destroy"}
+
+// c20sequenceChoices makes the choices of one operation sequence; ok=false: the sequence is not well formed
+func c20sequenceChoices(x *mc.X, maxOps int) (steps []c20step, ok bool) {
 	n := 1 + x.Choose(maxOps, "len")
-	type step struct{ op, h, rnd int }
-	var steps []step
-	nh := 0 // handles created so far (upper bound for handle choices)
+	nh := 0
 	for i := 0; i < n; i++ {
-		op := x.Choose(len(opNames), "op")
-		s := step{op: op}
-		needs := op >= 2 && op != 5
-		if needs {
+		op := x.Choose(len(c20opNames), "op")
+		s := c20step{op: op}
+		if op >= 2 && op != 5 {
 			if nh == 0 {
-				x.Outcome("n/a:no-handle-yet")
-				return
+				return nil, false
 			}
 			s.h = x.Choose(nh, "handle")
 		}
@@ -136,6 +169,16 @@ func c20sequence(x *mc.X, maxOps int) {
 			nh++
 		}
 		steps = append(steps, s)
+	}
+	return steps, true
+}
+
+func c20sequence(x *mc.X, maxOps int) {
+	opNames := []string{"New(prefix,{memory})", "New(prefix,{cpu,memory,pids})", "h.New(child)", "h.Random(r*)", "h.Nest(n)", "OpenExisting(prefix)", "AddProc(helper)", "SetMemoryLimit", "SetProcLimit", "SetCPUBandwidth", "Destroy"}
+	steps, ok := c20sequenceChoices(x, maxOps)
+	if !ok {
+		x.Outcome("n/a:no-handle-yet")
+		return
 	}
 	var desc []string
 	for _, s := range steps {
@@ -200,7 +243,7 @@ func c20sequence(x *mc.X, maxOps int) {
 	}
 	snapshot := func() map[string]bool {
 		m := map[string]bool{}
-		for _, ctl := range []string{"cpu", "cpuacct", "cpuset", "memory", "pids"} {
+		for _, ctl := range c20roots() {
 			filepath.Walk(filepath.Join("/sys/fs/cgroup", ctl, c20prefix()), func(p string, fi os.FileInfo, err error) error {
 				if err == nil && fi.IsDir() {
 					m[p] = true
@@ -219,10 +262,17 @@ func c20sequence(x *mc.X, maxOps int) {
 			if s.op == 1 {
 				ct = &cgroup.Controllers{CPU: true, Memory: true, Pids: true}
 			}
+			if c20v2 {
+				ct = &cgroup.Controllers{} // no controller can be enabled in this kernel's v2 hierarchy
+			}
 			cg, err := cgroup.New(prefix, ct)
 			add(i, cg, prefix, before, err)
 		case 5:
-			cg, err := cgroup.OpenExisting(prefix, &cgroup.Controllers{Memory: true})
+			oct := &cgroup.Controllers{Memory: true}
+			if c20v2 {
+				oct = &cgroup.Controllers{}
+			}
+			cg, err := cgroup.OpenExisting(prefix, oct)
 			add(i, cg, prefix, before, err)
 			if err == nil && cg != nil && !reflect.ValueOf(cg).IsNil() && !cg.Existing() {
 				x.Failf("C20/seq/openexisting-not-existing", "%s: OpenExisting returned a handle with Existing()==false", ctx(i))
@@ -268,11 +318,9 @@ func c20sequence(x *mc.X, maxOps int) {
 				cg, err = parent.cg.Nest("n")
 				rel = parent.rel + "/n"
 				if err == nil {
-					for ctl, p := range c20membership(helper.Process.Pid) {
-						for _, hp := range cgroup.VerifPaths(cg) {
-							if strings.HasPrefix(hp, "/sys/fs/cgroup/"+ctl+"/") && "/sys/fs/cgroup/"+ctl+p != hp {
-								x.Failf("C20/seq/nest-did-not-move", "%s: after Nest the helper is in %s:%s, expected %s", ctx(i), ctl, p, hp)
-							}
+					for _, hp := range cgroup.VerifPaths(cg) {
+						if got := c20memberDir(helper.Process.Pid, hp); got != hp {
+							x.Failf("C20/seq/nest-did-not-move", "%s: after Nest the helper is in %s, expected %s", ctx(i), got, hp)
 						}
 					}
 				}
@@ -288,11 +336,9 @@ func c20sequence(x *mc.X, maxOps int) {
 			beforeOther := c20membership(other.Process.Pid)
 			err := h.cg.AddProc(helper.Process.Pid)
 			if err == nil {
-				m := c20membership(helper.Process.Pid)
 				for _, hp := range cgroup.VerifPaths(h.cg) {
-					f := strings.SplitN(strings.TrimPrefix(hp, "/sys/fs/cgroup/"), "/", 2)
-					if len(f) == 2 && m[f[0]] != "/"+f[1] {
-						x.Failf("C20/seq/addproc-not-moved", "%s: AddProc succeeded but the process is in %s:%s, not in /%s", ctx(i), f[0], m[f[0]], f[1])
+					if got := c20memberDir(helper.Process.Pid, hp); got != hp {
+						x.Failf("C20/seq/addproc-not-moved", "%s: AddProc succeeded but the process is in %s, not in %s", ctx(i), got, hp)
 					}
 				}
 				if fmt.Sprint(c20membership(other.Process.Pid)) != fmt.Sprint(beforeOther) {
@@ -303,8 +349,8 @@ func c20sequence(x *mc.X, maxOps int) {
 			other.Wait()
 		case 7, 8, 9:
 			h := handles[s.h]
-			if h.dead {
-				continue
+			if h.dead || c20v2 {
+				continue // v2 limit files do not exist without controllers (covered on fake directories)
 			}
 			var err error
 			var file, want string
@@ -335,7 +381,7 @@ func c20sequence(x *mc.X, maxOps int) {
 				continue
 			}
 			// get the helper out of the way so that the group can be removed at all
-			for _, ctl := range c20ctl {
+			for _, ctl := range c20roots() {
 				os.WriteFile(filepath.Join("/sys/fs/cgroup", ctl, "cgroup.procs"), []byte(strconv.Itoa(helper.Process.Pid)), 0644)
 			}
 			paths := cgroup.VerifPaths(h.cg)
@@ -366,6 +412,47 @@ func c20sequence(x *mc.X, maxOps int) {
 	}
 	x.Outcome(fmt.Sprintf("seq:handles=%d:dirs-left=%d", len(handles), len(dirs)))
 }
+
+// c20onV2 makes the same choices as the v1 sequence family and replays that vector in a helper process that lives in a
+// private mount namespace with the cgroup2 hierarchy bind-mounted on /sys/fs/cgroup.
+func c20onV2(x *mc.X, maxOps int) {
+	dry := &mc.X{}
+	_ = dry
+	// consume the choices exactly as c20sequence does (without acting), then hand the vector over
+	c20sequenceChoices(x, maxOps)
+	if x.Dry() {
+		return
+	}
+	dir := tmpDir("c20v2")
+	defer os.RemoveAll(dir)
+	vec, _ := json.Marshal(map[string]any{"choices": x.Choices})
+	vf := filepath.Join(dir, "vector.json")
+	os.WriteFile(vf, vec, 0644)
+	self, _ := os.Executable()
+	cmd := exec.Command("unshare", "--mount", "--propagation", "private", "sh", "-c",
+		"mount --bind /sys/fs/cgroup/unified /sys/fs/cgroup && exec \"$0\" C20 "+c20tier+" --replay \"$1\"", self, vf)
+	cmd.Env = append(os.Environ(), "C20_V2=1")
+	out, err := cmd.Output()
+	var rep struct {
+		Status string `json:"status"`
+		Fails  []struct {
+			Key  string `json:"key"`
+			What string `json:"what"`
+		} `json:"fails"`
+		Outcome string `json:"outcome"`
+	}
+	if jerr := json.Unmarshal(out, &rep); jerr != nil {
+		x.Failf("C20/v2/harness", "replay in the v2 namespace failed: %v %v %.300q", err, jerr, string(out))
+		return
+	}
+	for _, f := range rep.Fails {
+		x.Failf(strings.Replace(f.Key, "C20/seq/", "C20/v2seq/", 1), "on the cgroup v2 hierarchy: %s", f.What)
+	}
+	x.Distinct("v2" + fmt.Sprint(x.Choices) + rep.Outcome)
+	x.Outcome("v2:" + rep.Outcome)
+}
+
+var c20tier = "quick"
 
 // ---- schedules: two creators, all interleavings of their instrumented file-system calls
 
